@@ -8,7 +8,7 @@ from hypothesis import strategies as st
 from ECAgent.Core import Agent, ComponentNotFoundError, Model
 from ECAgent.Environments import DiscreteWorld, GridWorld, LineWorld, SpaceWorld, PositionComponent
 from vf.engine import Violation, InvalidCase
-from vf.fixtures import check, expect_raises, sized_lists, wone_of
+from vf.fixtures import maybe_complete, with_done, check, expect_raises, sized_lists, wone_of
 from vf.props.c04 import oob_error_ok
 
 PROPERTY = "C08"
@@ -150,6 +150,7 @@ def run_case(case):
         return {i: actual(i) for i in range(4)}
 
     for k, op in enumerate(case["ops"]):
+        maybe_complete(case, k, model, labels)
         kind_op = op["op"]
         i = int(op.get("a", 0)) % 4
         where = f"after op {k} {op}"
@@ -330,7 +331,7 @@ def strategy(tier):
             else:
                 ops.append({"op": "remove", "a": draw(a)})
         return {"kind": kind, "ext": ext, "wrap": wrap, "num": "exact" if exact else "float", "ops": ops, "decoy": draw(st.integers(0, 3)) == 0, "np": draw(st.integers(0, 4)) == 0, "call": draw(st.sampled_from(["pos", "pos", "kw", "short"]))}
-    return case()
+    return with_done(case())
 
 
 EXHAUSTIVE_DOMAIN = ("one agent, one move: every (kind, extent, wrap, start, delta) with kind in {line, grid (extent x 2), discrete "
